@@ -82,6 +82,7 @@ def tasks(tier, seed):
     T.append(('adapt_rk',))
     T.append(('adapt_res',))
     T.append(('adapt_avoid',))
+    T.append(('cc_params',))
     for which in ('poly', 'extra', 'coll'):
         T.append(('adapt_conv', which))
     for a in ([(1, 1, True, 2, 1), (1, 1, False, 2, 1), (2, 1, True, 2, 1)] if quick else [(1, 1, True, 2, 1), (1, 1, False, 2, 1), (2, 1, True, 2, 1), (1, 2, True, 2, 1), (2, 1, False, 2, 1), (3, 1, True, 2, 1), (1, 1, True, 2, 2)]):  # (three accepted steps, N = 3, do not finish: > 7 min of exploration per configuration)
@@ -134,6 +135,8 @@ def run_task(rep, task):
         adapt_residual_case(rep)
     elif task[0] == 'adapt_avoid':
         adapt_avoid_case(rep)
+    elif task[0] == 'cc_params':
+        cc_params_case(rep)
     elif task[0] == 'adapt_conv':
         adapt_conv_case(rep, task[1])
     elif task[0] == 'adrun':
@@ -450,6 +453,60 @@ def limiters_of_controller(params):
     for o in out:
         o.log = lambda *a, **k: None
     return out
+
+
+def cc_params_case(rep):
+    """the symbolic cases above judge the rules for GIVEN parameters (order, limits, budgets); this case closes the gap to the description: every
+    parameter a user configures for the restart / step-size controllers arrives unchanged at the controller object a real controller carries (values
+    that are falsy -- 0, False -- and values different from the defaults included), and what is not configured takes the documented source
+    (concrete, ENUMERATED)"""
+    from pySDC.implementations.convergence_controller_classes.adaptivity import Adaptivity, AdaptivityRK, AdaptivityResidual
+    from pySDC.implementations.convergence_controller_classes.step_size_limiter import StepSizeLimiter, StepSizeSlopeLimiter
+    from pySDC.implementations.sweeper_classes.Runge_Kutta import Cash_Karp, Heun_Euler
+
+    cp = {'logger_level': 50, 'dump_setup': False, 'mssdc_jac': False}
+
+    def carried(cls, params, sweeper=None, get=None):
+        d = base_desc(extra_cc={cls: dict(params)})
+        if sweeper is not None:
+            d['sweeper_class'] = sweeper
+            d['sweeper_params'] = {}
+        ctl = controller_nonMPI(1, dict(cp), d)
+        return get_cc(ctl, get or cls), ctl
+
+    cases = []
+    for mr in (0, 1, 3, 10, 12):
+        for crash in (False, True):
+            for first in (False, True):
+                cases.append((BasicRestartingNonMPI, {'max_restarts': mr, 'crash_after_max_restarts': crash, 'restart_from_first_step': first}, None))
+    for p in ({'e_tol': 1e-3, 'beta': 0.5, 'avoid_restarts': True}, {'e_tol': 2.0, 'beta': 1.0, 'avoid_restarts': False, 'dt_min': 0.0, 'dt_max': 0.5},
+              {'e_tol': 1e-9, 'dt_min': 1e-3, 'dt_slope_max': 1.5, 'dt_slope_min': 0.25, 'dt_rel_min_slope': 1.0}):
+        cases.append((Adaptivity, p, None))
+    for sw in (Cash_Karp, Heun_Euler):
+        for uo in (1, 2, 3, 4, 5, 7):
+            cases.append((AdaptivityRK, {'e_tol': 1e-3, 'update_order': uo}, sw))
+    cases.append((AdaptivityResidual, {'e_tol': 1e-3, 'e_tol_low': 0.0, 'max_restarts': 0, 'factor_if_not_converged': 3.0, 'residual_max_tol': 1.0}, None))
+    for cls, params, sw in cases:
+        nm = f'cc-params/{cls.__name__}/' + ','.join(f'{k}={v}' for k, v in params.items()) + (f'/{sw.__name__}' if sw else '')
+        try:
+            inst, ctl = carried(cls, params, sw)
+        except Exception as e:
+            rep.side(nm + ':controller-built', False, f'{type(e).__name__}: {e}')
+            continue
+        own = {k: v for k, v in params.items() if k not in ('dt_min', 'dt_max', 'dt_slope_max', 'dt_slope_min', 'dt_rel_min_slope', 'max_restarts') or cls is BasicRestartingNonMPI or k in vars(inst.params)}
+        bad = {k: (getattr(inst.params, k, '<missing>'), v) for k, v in own.items() if getattr(inst.params, k, '<missing>') != v or type(getattr(inst.params, k, None)) is not type(v)}
+        rep.side(nm + ':configured-values-arrive', not bad, {'carried_vs_configured': {k: [repr(a), repr(b)] for k, (a, b) in bad.items()}})
+        rep.translator += 1
+        # limits configured on the step-size controller reach the limiter objects the controller loads for them
+        lims = [C for C in ctl.convergence_controllers if isinstance(C, (StepSizeLimiter, StepSizeSlopeLimiter))]
+        for k in ('dt_min', 'dt_max', 'dt_slope_max', 'dt_slope_min', 'dt_rel_min_slope'):
+            if k in params and cls is Adaptivity:
+                got = [getattr(C.params, k) for C in lims if k in vars(C.params)]
+                rep.side(nm + f':{k}-reaches-a-limiter', bool(got) and all(g == params[k] for g in got), {'limiter_values': [repr(g) for g in got], 'configured': params[k]})
+    # not configured: the update order of AdaptivityRK is the one of the sweeper class
+    for sw in (Cash_Karp, Heun_Euler):
+        inst, _ = carried(AdaptivityRK, {'e_tol': 1e-3}, sw)
+        rep.side(f'cc-params/AdaptivityRK/default-update-order/{sw.__name__}', inst.params.update_order == sw.get_update_order(), {'carried': inst.params.update_order, 'sweeper': sw.get_update_order()})
 
 
 def lim_case(rep):
